@@ -4,7 +4,7 @@ the implementation and on the reference machine under the same tape."""
 import copy
 import itertools
 
-from ..common import HarnessError, canon, load_impl
+from ..common import HarnessError, canon, load_impl, same_result
 from ..engine.tape import Tape
 from ..ref import jumpvm
 
@@ -110,7 +110,9 @@ def run_ref(model, prefix, limit, presets=None, loader=None, resolver=None, base
 
 
 def diff(x, y, with_count=True):
-    for key in ('result', 'logs', 'x', 'points') + (('count',) if with_count else ()):
+    if not same_result(x['result'], y['result']):
+        return 'result'
+    for key in ('logs', 'x', 'points') + (('count',) if with_count else ()):
         if x[key] != y[key]:
             return key
     return None
